@@ -7,7 +7,7 @@ func init() {
 			"windows (start,length), trim sizes, cut points, site lists (repeats, any order), reference names (a row, preferably gapped, or an unknown name) and ungapped (start,length)/positions drawn valid by construction about half of the time and from {-1,0,1,L-1,L,L+1} or uniformly otherwise; " +
 			"partition definitions made of plain and modulo (2, 3 = codon) ranges with names that come back, built through AddRange or by parsing the generated text (blank layouts, CRLF, no final end of line), perturbed by a range outside the alignment, a repeated range, a missing range or another declared length; " +
 			"pairs/triples of alignments with names from a common pool in different orders for Concat/Append; every (start,length), trim size, site pair and - for every gap pattern of the reference - every ungapped (start,length) and position in [-1,L+1] for L <= 8 (10 in thorough) by enumeration; " +
-			"executions of subseq (-s -l -r --ref-seq --step), subsites (arguments, --sitefile, --ref-seq, -r, --informative), split --partition, extract --coordinates (several blocks, strand, --ref-seq), trim seq, concat, transpose, diff, diff --reverse on FASTA files. " +
+			"executions of subseq (-s -l -r --ref-seq --step), subsites (arguments, --sitefile, --ref-seq, -r, --informative), split --partition, extract --coordinates (several blocks, strand, --ref-seq), trim seq, concat, transpose, diff, diff --reverse on FASTA files and - one execution in three, for the commands that loop over the input stream (subseq, subsites, trim seq, transpose, diff, concat) - on Phylip files holding 2-3 alignments of different lengths and gap patterns (-p, default / --one-line / --no-block output), every output alignment being compared with the oracle of ITS input alignment (the exit status must be non-zero iff the request is invalid for one of them). " +
 			"Oracle: column arithmetic on the generated rows (the addressed columns, in the addressed order, under unchanged names and row order; the smallest window holding exactly the requested reference residues, confirmed by reading the window back; the ordered complement; pairing by name with gap padding on the side where the row is absent; blocks = columns of each partition in ascending order), the documented bounds for every error (window or site outside [0,L), trim size < 0 or >= L, ungapped coordinates outside the reference, unknown reference, range outside the alignment, fewer than two partitions, other declared length), and the re-assembly relations prefix++window++suffix, SubAlign(0,k)++SubAlign(k,L-k), selection+inverse positions, re-interleaved Split blocks, Transpose twice, ReplaceMatchChars after DiffWithFirst, String() of a partition set parsed back; a panic or a Go crash trace of the command is a violation whatever the arguments. " +
 			"Non-trivial: an integer argument lies on one of -1,0,1,L-1,L,L+1 (L = alignment length, or ungapped reference length for reference coordinates), or the reference has a gap inside the requested window/among the requested positions, or the partition is not contiguous, or a row is absent on one side of a concatenation / the row orders differ, or (transpose/diff) the alignment is rectangular with at least one match character; command line: the same rule per command, several windows for --step, several blocks or a gap inside a block for extract; distinct = distinct JSON form of the case (enumeration: distinct tuples)",
 		Assumptions: []string{
@@ -18,22 +18,22 @@ func init() {
 			"--informative is exercised on upper-case ACGT alignments without gaps, where every reading of 'character' agrees; extract --translate and --gff are not exercised (translation is C05's subject)",
 			"absence of violations is established on the explored cases only; the enumerated sub-space is covered completely",
 		},
-		LevelText: "Generated-input search against a reference model: ~84 000 (quick) to ~2.9 million (thorough) alignments with windows, site lists, reference coordinates, partitions and concatenations compared with column arithmetic on the generated rows and with the re-assembly relations, ~58 000 (quick) to ~325 000 (thorough) enumerated boundary tuples, and ~2 000 (quick) to ~32 000 (thorough) executions of the commands. Shows absence of violations on what was explored; the enumerated tuples are exhaustive for L <= 8 (10 in thorough).",
-		LevelNote: "trusts the harness's own column arithmetic, its partition text writer and its minimal FASTA reader; corners the documentation leaves open are accepted in every reading and counted",
+		LevelText: "Generated-input search against a reference model: ~96 000 (quick) to ~2.9 million (thorough) alignments with windows, site lists, reference coordinates, partitions and concatenations compared with column arithmetic on the generated rows and with the re-assembly relations, ~58 000 (quick) to ~325 000 (thorough) enumerated boundary tuples, and ~2 900 (quick) to ~32 000 (thorough) executions of the commands. Shows absence of violations on what was explored; the enumerated tuples are exhaustive for L <= 8 (10 in thorough).",
+		LevelNote: "trusts the harness's own column arithmetic, its partition text writer and its minimal FASTA and Phylip readers; corners the documentation leaves open are accepted in every reading and counted",
 		Technique: "property-based testing (rapid): reference model + inverse/re-assembly relations; bounded-exhaustive enumeration of boundary arguments; command-line differential",
 		DesignRef: "DESIGN.md section 5, C04",
 		Runs: []runSpec{
-			{Name: "windows", Test: "^TestWindows$", Quick: 14000, Thorough: 60000, Shards: 8},
-			{Name: "sites", Test: "^TestSites$", Quick: 14000, Thorough: 60000, Shards: 8},
-			{Name: "refcoord", Test: "^TestRefCoordinates$", Quick: 14000, Thorough: 60000, Shards: 8},
-			{Name: "concat", Test: "^TestConcatAppend$", Quick: 14000, Thorough: 60000, Shards: 8},
-			{Name: "split", Test: "^TestSplit$", Quick: 14000, Thorough: 60000, Shards: 8},
-			{Name: "transpose-diff", Test: "^TestTransposeDiff$", Quick: 14000, Thorough: 60000, Shards: 8},
+			{Name: "windows", Test: "^TestWindows$", Quick: 16000, Thorough: 60000, Shards: 8},
+			{Name: "sites", Test: "^TestSites$", Quick: 16000, Thorough: 60000, Shards: 8},
+			{Name: "refcoord", Test: "^TestRefCoordinates$", Quick: 16000, Thorough: 60000, Shards: 8},
+			{Name: "concat", Test: "^TestConcatAppend$", Quick: 16000, Thorough: 60000, Shards: 8},
+			{Name: "split", Test: "^TestSplit$", Quick: 16000, Thorough: 60000, Shards: 8},
+			{Name: "transpose-diff", Test: "^TestTransposeDiff$", Quick: 16000, Thorough: 60000, Shards: 8},
 			{Name: "exhaustive", Test: "^TestExhaustive$", Quick: 1, Thorough: 1},
-			{Name: "cli-subseq", Test: "^TestCLISubseq$", Quick: 700, Thorough: 2000, Shards: 4},
-			{Name: "cli-subsites", Test: "^TestCLISubsites$", Quick: 450, Thorough: 2000, Shards: 4},
+			{Name: "cli-subseq", Test: "^TestCLISubseq$", Quick: 1000, Thorough: 2000, Shards: 4},
+			{Name: "cli-subsites", Test: "^TestCLISubsites$", Quick: 700, Thorough: 2000, Shards: 4},
 			{Name: "cli-split-extract", Test: "^TestCLISplitExtract$", Quick: 450, Thorough: 2000, Shards: 4},
-			{Name: "cli-other", Test: "^TestCLIOther$", Quick: 450, Thorough: 2000, Shards: 4},
+			{Name: "cli-other", Test: "^TestCLIOther$", Quick: 700, Thorough: 2000, Shards: 4},
 		},
 	})
 }
